@@ -9,7 +9,10 @@ import (
 )
 
 func fullPrelude(p *Prog) string {
-	return preludeSig + "\n" + p.structDecls() + preludeAx + "\n"
+	if os.Getenv("VF_NOSLICE") != "" {
+		return preludeSig + "\n" + p.structDecls() + preludeAx + "\n"
+	}
+	return preludeSig + "\n" + p.structDecls() + axiomMarker
 }
 
 func leanPrelude(p *Prog) string {
